@@ -1,4 +1,5 @@
 """Read path and lifecycle family: C02 (inbound delivery integrity), C03 (connection lifecycle, dial result)."""
+from . import srcgen
 from . import cs_life
 
 READ_RUN = {"harness": "hread", "driver": "gatedrv", "fields": None, "corpus": "life",
@@ -29,7 +30,8 @@ PROPS = {
                     "proved for the internal steps between reports and MEASURED (idle CPU in a 60 ms window, incl. after an immediate "
                     "DialAsync connect) on real sockets; NPoller only selects the poller; read-call counters on the simulated kernel",
             "technique": "Lean 4 proof (inductive invariant over a small-step transition system, decreasing measure) + differential correspondence"},
-        "lean": ["NbioVerif.Properties.C02"], "drivers": ["gatedrv"], "harness": ["hread"],
+        "lean": ["NbioVerif.Properties.C02", srcgen.BRIDGE_CONN], "drivers": ["gatedrv"], "harness": ["hread"],
+        "facts": [srcgen.src_facts],
         "runs": [READ_RUN],
         "oracles": ["c02-"], "cs": cs_life.C02_CS,
         "rule": "case = (mode x sync/async x executor x ReadBufferSize x per-loop limit x transport x NPoller, op sequence of arrivals, "
@@ -73,7 +75,8 @@ PROPS = {
                     "fidelity is sampled on every run; the real-socket steps (accept, client close/reset, real refused dial, peer FIN "
                     "on a dialed conn) are supporting evidence",
             "technique": "Lean 4 proof (inductive invariant over a small-step transition system) + differential correspondence"},
-        "lean": ["NbioVerif.Properties.C03"], "drivers": ["lifedrv"], "harness": ["hlife"],
+        "lean": ["NbioVerif.Properties.C03", srcgen.BRIDGE_CONN], "drivers": ["lifedrv"], "harness": ["hlife"],
+        "facts": [srcgen.src_facts],
         "runs": [LIFE_RUN],
         "oracles": ["c03-"], "cs": cs_life.C03_CS,
         "rule": "case = (epoll mode, NPoller, write-buffer limit, history over up to four conns of kinds added/dialed/UDP listener+"
